@@ -10,23 +10,32 @@ PATHS = FontMapping.get_font_paths()
 UNITS = ["in", "mm", "px", "cm", "", "IN"]
 BOGUS = ["Comic Sans", "", "arial", "Times"]
 
-def measure(font, size, unit, text="abc", px=30.0):
-    """real get_string_width with Pillow replaced by a recorder returning px"""
-    seen = []
+def fpx(path, size, text):
+    """the stub's 'glyph metric': a value that identifies the (font file, size, text) a measurement was made with"""
+    return float(size) * 16 + (sum(ord(c) for c in str(path)[-12:]) % 13) + len(text) / 4.0
+
+def measure(font, size, unit, text="abc"):
+    """real get_string_width with Pillow replaced by fonts whose measured length identifies (file, size, text)"""
     class FakeFont:
+        def __init__(self, path, size):
+            self.path, self.size = str(path), size
         def getlength(self, t):
-            seen.append(("text", t))
-            return px
+            return fpx(self.path, self.size, t)
     saved = sw.ImageFont
-    sw.ImageFont = NS(truetype=lambda path, size=None: (seen.append(("font", str(path), size)), FakeFont())[1])
+    sw.ImageFont = NS(truetype=lambda path, size=None: FakeFont(path, size))
     try:
         try:
-            val = sw.get_string_width(text, font=font, font_size=size, unit=unit, dpi=72.0)
-            return "ok", val, seen
+            return "ok", sw.get_string_width(text, font=font, font_size=size, unit=unit, dpi=72.0)
         except ValueError:
-            return "ValueError", None, seen
+            return "ValueError", None
     finally:
         sw.ImageFont = saved
+
+def expected(name, size, unit, text="abc"):
+    import importlib.resources as ir
+    import rtflite.fonts
+    px = fpx(ir.files(rtflite.fonts) / PATHS[name], size, text)
+    return {"px": px, "in": px / 72.0, "mm": (px / 72.0) * 25.4}[unit]
 '''
 
 
@@ -44,34 +53,45 @@ def build(tier, seed):
         body=r'''
     unit = pick(UNITS, u)
     n = concrete_int(num, -3, 14)
-    half = pick([0.5, 4, 9, 9.5, 12, 48], z)
-    st_n, val_n, seen_n = measure(n, half, unit)
-    legal_font = 1 <= n <= 10
-    legal_unit = u <= 2
-    if not (legal_font and legal_unit):
+    size = pick([0.5, 4, 9, 9.5, 12, 48], z)
+    st_n, val_n = measure(n, size, unit)
+    if not (1 <= n <= 10 and u <= 2):
         return st_n == "ValueError"
     name = NAMES[n - 1]
-    st_s, val_s, seen_s = measure(name, half, unit)
-    if st_n != "ok" or st_s != "ok" or val_n != val_s or seen_n != seen_s:
-        return False
-    font_calls = [s for s in seen_n if s[0] == "font"]
-    return len(font_calls) == 1 and font_calls[0][1].endswith(PATHS[name]) and font_calls[0][2] == half \
-        and [s for s in seen_n if s[0] == "text"] == [("text", "abc")]
+    st_s, val_s = measure(name, size, unit)
+    return st_n == "ok" and st_s == "ok" and val_n == val_s and val_n == expected(name, size, unit)
 ''',
         funcs=["rtflite.strwidth:get_string_width", "rtflite.fonts_mapping:FontMapping.get_font_paths",
                "rtflite.fonts_mapping:FontMapping.get_font_number_to_name_mapping"],
-        stubs=["Pillow -> recorder of (font file, size, text)"],
+        stubs=["Pillow -> fonts whose measured length identifies the (font file, size, text) used"],
         bounds="font number -3..14 and the name mapped to it, unit in {in,mm,px,cm,'',IN}, size in {0.5, 4, 9, 9.5, 12, 48}",
-        what="a font given by number or by its name measures the same text with the same font file at the same size and returns the "
-             "same value; an unsupported font number or unit raises ValueError"))
+        what="a font given by number or by its name measures the text with the font file mapped to it at exactly the requested size and "
+             "returns the same value; an unsupported font number or unit raises ValueError"))
     obs.append(Ob(
         oid="O2.unknown_name", sig="b: int, u: int", pre=["0 <= b <= 3", "0 <= u <= 2"], header=HDR20, timeout=T,
         body=r'''
-    st, val, seen = measure(pick(BOGUS, b), 9, pick(UNITS, u))
-    return st == "ValueError" and seen == []
+    st, val = measure(pick(BOGUS, b), 9, pick(UNITS, u))
+    return st == "ValueError"
 ''',
         funcs=["rtflite.strwidth:get_string_width"], bounds="4 unsupported font names x the three legal units",
-        what="an unsupported font name raises ValueError before anything is measured"))
+        what="an unsupported font name raises ValueError"))
+    obs.append(Ob(
+        oid="O3.history_independent", sig="f1: int, f2: int, z1: int, z2: int, same_text: bool",
+        pre=["0 <= f1 <= 2 and 0 <= f2 <= 2", "0 <= z1 <= 3 and 0 <= z2 <= 3"], header=HDR20, timeout=T,
+        body=r'''
+    sizes = [9, 9.5, 10, 10.5]
+    a, b = pick([1, 4, 9], f1), pick([1, 4, 9], f2)
+    s1, s2 = pick(sizes, z1), pick(sizes, z2)
+    unit = "px"
+    measure(a, s1, unit, "abc")
+    st, val = measure(b, s2, unit, "abc" if same_text else "abcd")
+    return st == "ok" and val == expected(NAMES[b - 1], s2, unit, "abc" if same_text else "abcd")
+''',
+        funcs=["rtflite.strwidth:get_string_width"],
+        stubs=["Pillow -> fonts whose measured length identifies the (font file, size, text) used"],
+        bounds="one earlier measurement (font 1, 4 or 9 - three different font files; size in {9, 9.5, 10, 10.5}) followed by the measurement "
+               "under test (any of those fonts and sizes, same or other text)",
+        what="a measurement uses the font file and the exact size it was asked for, whatever was measured before (no lossy memoisation)"))
     meta = {
         "explanation": "Only the wrapper around Pillow is Python: with the measured pixel length an arbitrary non-negative double, the "
                        "three unit results are decided bit-exactly (congruence on the shared px/dpi term, no division solved), and "
